@@ -29,6 +29,12 @@ def build_file(case):
             elif note == -1000:
                 # an end_of_track that is not the last message (tracks glued together): its ticks count, the message goes
                 t.append(mido.MetaMessage('end_of_track', time=delta))
+            elif note <= -2000:
+                # a time signature: notation only (the metronome click, how many notated 32nds a MIDI quarter note has);
+                # the tempo map is the set_tempo events and ticks_per_beat alone
+                j = -note - 2000
+                t.append(mido.MetaMessage('time_signature', numerator=j % 7 + 1, denominator=2 ** (j % 5), clocks_per_click=(j * 7) % 256,
+                                          notated_32nd_notes_per_beat=j % 256, time=delta))
             elif note < 0:
                 t.append(mido.MetaMessage('marker', text='x%d' % -note, time=delta))
             else:
@@ -319,6 +325,8 @@ def gen(ck):
                     tr.append((delta, None, -1000))
                 elif r < 0.37:
                     tr.append((delta, None, -rng.randint(1, 99)))
+                elif r < 0.43:
+                    tr.append((delta, None, -2000 - rng.choice([8, 8, 0, 1, 4, 16, 24, 32, 255, rng.randint(0, 255)])))
                 else:
                     tr.append((delta, None, rng.randint(0, 16383)))
             tracks.append(tr)
